@@ -29,7 +29,8 @@ func readOnlyCallee(cl Callee) bool {
 	case "math/big":
 		return cl.Name == "SetBytes" || cl.Name == "FillBytes"
 	case "hash", "io":
-		return cl.Name == "Write"
+		// hash.Hash.Sum(b) appends the digest to b and returns the extended slice: nothing is retained
+		return cl.Name == "Write" || (cl.Pkg == "hash" && cl.Name == "Sum")
 	}
 	if cl.Iface && cl.Name == "Write" {
 		return true // io.Writer contract: Write must not retain p
@@ -208,6 +209,12 @@ func paramRetentions(fn *ssa.Function, prm ssa.Value, allowReturn bool, depth in
 
 // checkNoRetainedParamSlices: every slice-typed parameter (not the receiver) of fn is not retained.
 func checkNoRetainedParamSlices(c *Ctx, p *Program, rule string, fn *ssa.Function) {
+	checkNoRetainedParamSlicesOpt(c, p, rule, fn, false)
+}
+
+// checkNoRetainedParamSlicesOpt: with allowReturn, handing the caller's own slice back (the
+// append-style `return append(dst, ...)`) is not a retention: nothing of the library aliases it.
+func checkNoRetainedParamSlicesOpt(c *Ctx, p *Program, rule string, fn *ssa.Function, allowReturn bool) {
 	start := 0
 	if fn.Signature.Recv() != nil {
 		start = 1
@@ -217,7 +224,7 @@ func checkNoRetainedParamSlices(c *Ctx, p *Program, rule string, fn *ssa.Functio
 		if !isSliceType(prm.Type()) {
 			continue
 		}
-		rs := paramRetentions(fn, prm, false, 0, map[*ssa.Function]bool{fn: true})
+		rs := paramRetentions(fn, prm, allowReturn, 0, map[*ssa.Function]bool{fn: true})
 		ok := len(rs) == 0
 		msg, pos := "", p.Pos(fn.Pos())
 		if !ok {
